@@ -432,6 +432,19 @@ func (f *bpFn) submatchRegex(v ssa.Value) *regexInfo {
 	return f.bp.p.regexOf(c.Call.Args[0])
 }
 
+// submatchRegexSet: like submatchRegex, for a pattern that is one of a local list of compiled patterns
+func (f *bpFn) submatchRegexSet(v ssa.Value) []*regexInfo {
+	c, ok := v.(*ssa.Call)
+	if !ok {
+		return nil
+	}
+	fn := c.Call.StaticCallee()
+	if fn == nil || fn.String() != "(*regexp.Regexp).FindStringSubmatch" {
+		return nil
+	}
+	return f.bp.p.regexSetOf(c.Call.Args[0])
+}
+
 func (f *bpFn) callFacts(c *ssa.Call) {
 	if b, ok := c.Call.Value.(*ssa.Builtin); ok {
 		switch b.Name() {
@@ -611,9 +624,20 @@ func (f *bpFn) condFacts(cond ssa.Value, tv bool, out *[]dfact, dq *[]diseq) {
 			} else if k == 0 {
 				if isNilConst(c.X) || isNilConst(c.Y) {
 					// non-nil slice: for FindStringSubmatch results the length is 1+NumSubexp
-					if ri := f.submatchRegex(other); ri != nil {
-						n := int64(ri.NumSub + 1)
-						*out = append(*out, dfact{lt, zeroT, n - lo, "non-nil submatch"}, dfact{zeroT, lt, lo - n, "non-nil submatch"})
+					if ris := f.submatchRegexSet(other); len(ris) > 0 {
+						// one of a known set of patterns: the length lies between the smallest
+						// and the largest 1+NumSubexp
+						mn, mx := int64(ris[0].NumSub+1), int64(ris[0].NumSub+1)
+						for _, ri := range ris[1:] {
+							n := int64(ri.NumSub + 1)
+							if n < mn {
+								mn = n
+							}
+							if n > mx {
+								mx = n
+							}
+						}
+						*out = append(*out, dfact{lt, zeroT, mx - lo, "non-nil submatch"}, dfact{zeroT, lt, lo - mn, "non-nil submatch"})
 					}
 				} else {
 					*out = append(*out, dfact{zeroT, lt, lo - 1, `!= ""`})
